@@ -769,7 +769,14 @@ def dot(x, y, out=None, out_like=None, sizing='optimal', method='raw', **kwargs)
     """
     def _dot_raw(x, y, n_frac, **kwargs):
         precision_cast = (lambda m: np.array(m, dtype=object)) if n_frac >= _n_word_max else (lambda m: m)
-        return utils.scale_raw(np.dot(x.val, y.val, **kwargs), n_frac - x.n_frac - y.n_frac)
+        x_raw, y_raw = x.val, y.val
+        if {getattr(x_raw, 'dtype', np.dtype(object)).kind, getattr(y_raw, 'dtype', np.dtype(object)).kind} == {'i', 'u'}:
+            # codes of mixed signedness: numpy would promote int64 with uint64 to float64; an unsigned code of fewer than 64 bits fits in int64
+            if x_raw.dtype.kind == 'u' and x.n_word < _n_word_max:
+                x_raw = x_raw.astype(np.int64)
+            if y_raw.dtype.kind == 'u' and y.n_word < _n_word_max:
+                y_raw = y_raw.astype(np.int64)
+        return utils.scale_raw(np.dot(x_raw, y_raw, **kwargs), n_frac - x.n_frac - y.n_frac)
 
     if not isinstance(x, Fxp):
         x = Fxp(x)
